@@ -335,41 +335,54 @@ func init() {
 // may confuse with absence), or to an outer variable; the innermost body reads every name of the
 // pool.  Implementations that flatten, collapse or copy scope chains beyond some depth must still
 // resolve each name to its nearest binding.
-var c19TowerDepths = []int{2, 3, 7, 8, 9, 15, 16, 17, 18, 31, 32, 33, 63, 64, 65, 100, 127, 128, 129, 255, 257, 1000}
+var c19TowerDepths = []int{2, 3, 4, 5, 6, 7, 8, 9, 10, 12, 15, 16, 17, 18, 31, 32, 33, 63, 64, 65, 100, 127, 128, 129, 255, 257, 1000}
 
-func c19TowersN(c *Ctx) int { return len(c19TowerDepths) * tierN(c, 40, 2000) }
+func c19TowersN(c *Ctx) int { return len(c19TowerDepths) * tierN(c, 60, 3000) }
 
 func c19Towers(c *Ctx, idx int) {
 	r := c.Rand("")
 	depth := c19TowerDepths[idx%len(c19TowerDepths)]
 	pool := []string{"$a", "$b", "$c", "$d", "$e", "$f", "$g", "$h"}
+	inner := []string{"$z0", "$z1", "$z2"}
 	var b strings.Builder
-	// the outermost let binds the whole pool, so that every later reference is defined
+	// the outermost let binds the first k names of the pool (all of them in two cases out of three, so
+	// that every later reference is defined; otherwise some references are undefined-variable faults)
+	k := len(pool)
+	if idx%3 == 2 {
+		k = 1 + r.Intn(len(pool))
+	}
+	bound := map[string]bool{}
 	b.WriteString("let ")
-	for i, v := range pool {
+	for i, v := range pool[:k] {
 		if i > 0 {
 			b.WriteString(", ")
 		}
 		fmt.Fprintf(&b, "%s = 'top-%d'", v, i)
+		bound[v] = true
 	}
 	b.WriteString(" in ")
-	closers := 0
 	style := idx % 3
+	var opened []string
 	for lvl := 1; lvl < depth; lvl++ {
 		nb := 1 + r.Intn(2)
+		if r.Chance(25) {
+			nb = 2 + r.Intn(3)
+		}
 		b.WriteString("let ")
 		used := map[string]bool{}
+		first := true
 		for j := 0; j < nb; j++ {
 			v := pool[r.Intn(len(pool))]
 			if used[v] {
 				continue
 			}
-			if j > 0 {
+			if !first {
 				b.WriteString(", ")
 			}
+			first = false
 			used[v] = true
 			var val string
-			switch r.Intn(10) {
+			switch r.Intn(12) {
 			case 0, 1, 2:
 				val = "`null`"
 			case 3:
@@ -377,34 +390,50 @@ func c19Towers(c *Ctx, idx int) {
 			case 4:
 				val = "`[]`"
 			case 5:
-				val = pool[r.Intn(len(pool))] // an outer variable (possibly the one being rebound)
+				val = pool[r.Intn(k)] // an outer variable (possibly the one being rebound)
 			case 6:
 				val = "missing"
+			case 7, 8:
+				// a let inside the binding expression: its own names must not leak, and it must not
+				// disturb the bindings being collected around it
+				z := inner[r.Intn(len(inner))]
+				val = fmt.Sprintf("(let %s = `%d` in %s)", z, lvl, z)
+				if r.Chance(40) {
+					w := pool[r.Intn(len(pool))]
+					val = fmt.Sprintf("(let %s = `%d`, %s = 'inner' in [%s, %s])", z, lvl, w, z, w)
+				}
 			default:
 				val = fmt.Sprintf("`%d`", lvl)
 			}
 			fmt.Fprintf(&b, "%s = %s", v, val)
 		}
+		for v := range used {
+			bound[v] = true
+		}
 		b.WriteString(" in ")
 		if style == 1 && lvl%5 == 0 {
 			b.WriteString("[")
-			closers++
+			opened = append(opened, "]")
 		} else if style == 2 && lvl%7 == 0 {
 			b.WriteString("xs[*].[")
-			closers += 2
+			opened = append(opened, "]")
 		}
 	}
-	b.WriteString("[" + strings.Join(pool, ", ") + "]")
-	// close the wrappers opened on the way down (innermost first)
+	reads := append([]string{}, pool...)
+	if idx%3 == 2 {
+		// only names that are bound somewhere above, plus (one case in four) a name that only an inner let bound
+		reads = reads[:0]
+		for _, v := range pool {
+			if bound[v] {
+				reads = append(reads, v)
+			}
+		}
+		if idx%4 == 2 {
+			reads = append(reads, inner[r.Intn(len(inner))])
+		}
+	}
+	b.WriteString("[" + strings.Join(reads, ", ") + "]")
 	text := b.String()
-	opened := []string{}
-	for lvl := 1; lvl < depth; lvl++ {
-		if style == 1 && lvl%5 == 0 {
-			opened = append(opened, "]")
-		} else if style == 2 && lvl%7 == 0 {
-			opened = append(opened, "]")
-		}
-	}
 	for i := len(opened) - 1; i >= 0; i-- {
 		text += opened[i]
 	}
